@@ -1,14 +1,18 @@
 """C41 Uncommitted updates have no effect on a batch.
 
   R1  a job of an update that is not committed can only leave Pending through commit_batch_update: every other statement that can set
-      jobs.state from Pending (the children update of mark_job_complete is the only one) must restrict the rows to committed updates
+      jobs.state from Pending (the children update of mark_job_complete is the only one) must restrict the rows to committed updates;
+      the commit-time promotion itself sits in the not-yet-committed branch AND is confined to the rows of the update being committed
+      (jobs.update_id = in_update_id, or an id interval within [start_job_id, start_job_id + n_jobs) of that update's batch_updates row,
+      decided on linear normal forms of the bounds - rules.c04.update_range_confinement)
   R2  job counts and completion state of batches / job groups: n_jobs grows only in commit_batch_update; `running` is set only there;
       `complete` only by the completion procedures; rows are created complete with n_jobs = 0
   R3  first-update jobs inserted Ready are shielded: every driver selection of jobs to start or cancel goes through job groups in
       state 'running'
   R4  cancel procedures move only committed updates' cancellable counts; cancelling a non-root group requires its creating update to be
       committed
-  R5  staged counts reach the scheduler counters only in commit_batch_update (submission never writes user_inst_coll_resources)
+  R5  staged counts reach the scheduler counters only in commit_batch_update (submission never writes user_inst_coll_resources); every read of
+      the staging table in commit_batch_update is keyed by (in_batch_id, in_update_id)
 Not decided: histories; completeness of "exactly as if it had not been started" for non-job side effects (e.g. reserved id ranges).
 """
 from __future__ import annotations
@@ -21,7 +25,7 @@ from engines import sqlfront as sf
 from engines import sqlrules as sr
 from engines.common import AnalysisError, Ctx
 from engines.sqlast import N, text
-from rules.c04 import STATES, from_states, state_sets, state_vars, to_values
+from rules.c04 import STATES, from_states, state_sets, state_vars, to_values, update_range_confinement
 
 META = dict(
     category='other',
@@ -60,6 +64,14 @@ def r1(ctx: Ctx, prog: sf.SqlProgram) -> None:
             if name == 'commit_batch_update':
                 ok = ('cur_update_committed', False) in [(text(c), p) for c, p in guard]
                 ctx.check(ok, 'R1', cons, 'the commit-time promotion is not confined to the not-yet-committed branch', r.file, r.line_of(st))
+                # ... and to the jobs of THE update being committed: ids are reserved when an update is created and commits are not ordered, so
+                # any other id of the batch may belong to an update that is still open (or abandoned for good)
+                verdict, why = update_range_confinement(r.ast, st, guard)
+                ctx.need(verdict != 'unknown', f'commit_batch_update: cannot decide whether the commit-time promotion is confined to the jobs of the update being committed: {why}')
+                ctx.check(verdict == 'ok', 'R1', cons + '::rows of the committed update only',
+                          f'the commit-time promotion of update in_update_id also rewrites jobs of OTHER updates of the batch, which may be uncommitted: {why}. Those jobs are recounted, '
+                          'their parent-less ones become Ready (time_ready set), jobs_after_update adds them to the scheduler counters and, sitting in a running job group, they are scheduled '
+                          'although their update was never committed', r.file, r.line_of(st))
                 continue
             ctx.check(_mentions_committed(st), 'R1', cons,
                       'this statement can move Pending jobs to ' + '/'.join(sorted(tos - {'Pending'})) + ' without restricting them to committed updates (no join to batch_updates.committed on the '
@@ -207,15 +219,36 @@ def r5(ctx: Ctx, prog: sf.SqlProgram) -> None:
     hits = [(st, g) for st, g in sf.guarded_statements(r.ast.body) if st.kind == 'insert' and st.table.lower() == 'user_inst_coll_resources']
     ok = len(hits) == 1 and ('cur_update_committed', False) in [(text(c), p) for c, p in hits[0][1]]
     ctx.check(ok, 'R5', f'{r.file}::commit_batch_update::staged counts enter at commit', 'staged ready counts are not added exactly once in the not-yet-committed branch of commit_batch_update', r.file, r.line)
+    # every read of the staging table inside commit_batch_update is restricted to (in_batch_id, in_update_id): staged rows of other (open) updates must not be counted
+    k = 0
+    for st in r.ast.walk():
+        if st.kind != 'select' or st.frm is None:
+            continue
+        tabs = [t for t in sf.from_tables(st.frm) if t.kind == 'table']
+        if not any(t.name.lower() == 'job_groups_inst_coll_staging' for t in tabs):
+            continue
+        k += 1
+        conj = list(sf.conjuncts(st.where))
+        for j in (st.frm.joins if st.frm.kind == 'from' else []):
+            if j.jtype == 'INNER':
+                conj += sf.conjuncts(j.on)
+        w = None
+        for c in conj:
+            w = c if w is None else N('bin', op='AND', left=w, right=c)
+        okk = sr.has_eq(w, 'update_id', 'in_update_id') and sr.has_eq(w, 'batch_id', 'in_batch_id')
+        role = 'INTO ' + ', '.join(text(v) for v in st.into) if st.into else ('GROUP BY ' + ', '.join(text(g) for g in (getattr(st, 'group', None) or [])))[:60]
+        ctx.check(okk, 'R5', f'sql::commit_batch_update::staging read {role}', f'`{text(st)[:160]}` reads job_groups_inst_coll_staging without `batch_id = in_batch_id AND update_id = in_update_id`: '
+                  'the staged jobs of other updates of the batch - created but not committed - are added to n_jobs / the scheduler counters by this commit', r.file, r.line_of(st))
+    ctx.need(k >= 3, f'commit_batch_update: only {k} reads of the staging table found')
 
 
 def run(ctx: Ctx) -> None:
     ctx.explanation = 'Enumeration of every statement through which a job of an uncommitted update could become runnable, counted or complete.'
-    ctx.rule('R1', 'statements that can take a job out of Pending are the commit procedure or restricted to committed updates', 2)
+    ctx.rule('R1', 'statements that can take a job out of Pending are the commit procedure (confined to the rows of the update being committed) or restricted to committed updates', 3)
     ctx.rule('R2', 'n_jobs grows and state becomes running only in commit_batch_update; complete only under completed == n_jobs; new rows start complete with 0 jobs', 9)
     ctx.rule('R3', 'driver selections reach jobs only through job groups in state running', 14)
     ctx.rule('R4', 'cancellation moves only committed updates\' counts; a non-root group must be committed to be cancelled', 3)
-    ctx.rule('R5', 'staged counts enter the scheduler counters only at commit', 2)
+    ctx.rule('R5', 'staged counts enter the scheduler counters only at commit, and only those of the update being committed', 5)
     prog = sf.load_program()
     r1(ctx, prog)
     r2(ctx, prog)
